@@ -560,3 +560,30 @@ func resolveLocal(info *types.Info, body ast.Node, e ast.Expr, depth int) ast.Ex
 	}
 	return unparen(e)
 }
+
+// posFset is the file set of the current load; posLess orders positions by file
+// name and offset. token.Pos values themselves depend on the order in which
+// go/packages happened to parse the files (it parses concurrently), so an order
+// by raw Pos - and every construct number derived from it - would differ between
+// two loads of the same tree.
+var posFset *token.FileSet
+
+func posLess(a, b token.Pos) bool {
+	if posFset == nil {
+		return a < b
+	}
+	pa, pb := posFset.Position(a), posFset.Position(b)
+	if pa.Filename != pb.Filename {
+		return pa.Filename < pb.Filename
+	}
+	return pa.Offset < pb.Offset
+}
+
+// setWorld makes w the world the rules read (theWorld) and its file set the one
+// posLess interprets positions in.
+func setWorld(w *World) {
+	theWorld = w
+	if w != nil {
+		posFset = w.Fset
+	}
+}
